@@ -138,6 +138,27 @@ func comparableNumber(num any) bool {
 	return true
 }
 
+// compareIntFloat compares an int64 to a float64 without losing precision and
+// returns 0, 1, or -1.
+func compareIntFloat(left int64, right float64) int {
+	const two63 = 9223372036854775808.0
+	switch {
+	case right >= two63:
+		return -1
+	case right < -two63:
+		return 1
+	}
+	// right is within the range of int64; compare the integral parts first.
+	if whole := int64(right); left != whole {
+		return compareNumbers(left, whole)
+	} else if frac := right - float64(whole); frac > 0 {
+		return -1
+	} else if frac < 0 {
+		return 1
+	}
+	return 0
+}
+
 // compareBool compares two numeric values and returns 0, 1, or -1. The left
 // and right params must be int64, float64, or json.Number values.
 func compareNumeric(left, right any) int {
@@ -147,14 +168,14 @@ func compareNumeric(left, right any) int {
 		case int64:
 			return compareNumbers(left, right)
 		case float64:
-			return compareNumbers(float64(left), right)
+			return compareIntFloat(left, right)
 		case json.Number:
 			if rightInt, err := right.Int64(); err == nil {
 				return compareNumbers(left, rightInt)
 			}
 			rightFloat, err := right.Float64()
 			if err == nil {
-				return compareNumbers(float64(left), rightFloat)
+				return compareIntFloat(left, rightFloat)
 			}
 			// This should not happen.
 			panic(err)
@@ -164,8 +185,11 @@ func compareNumeric(left, right any) int {
 		case float64:
 			return compareNumbers(left, right)
 		case int64:
-			return compareNumbers(left, float64(right))
+			return -compareIntFloat(right, left)
 		case json.Number:
+			if rightInt, err := right.Int64(); err == nil {
+				return -compareIntFloat(rightInt, left)
+			}
 			rightFloat, err := right.Float64()
 			if err == nil {
 				return compareNumbers(left, rightFloat)
